@@ -196,7 +196,7 @@ func indexAddr(fr *frame, elems []value, idx value) value {
 		return &elems[i]
 	}
 	lo, hi := 0, len(elems)-1
-	if len(elems) > 16 {
+	if len(elems) > 128 {
 		lo, hi = ex.feasibleRange(i64, 0, len(elems)-1)
 	}
 	if lo == hi {
